@@ -452,6 +452,24 @@ def r06_5(ctx, prog, crate):
     ctx.check(ok, "R06.5", ["par_extend", "reserve-aux+1"], "reserve argument derives from %s" % sorted(x.label() for x in r), rs[0].line())
     ctx.check({x.label() for x in pe.prov.op_src(bc[0].args[1])} == {aux}, "R06.5", ["par_extend", "broadcast-same-count"],
               "broadcast gets %s" % sorted(x.label() for x in pe.prov.op_src(bc[0].args[1])), bc[0].line())
+    # the pre-fill covers every slot that set_len exposes: it walks the whole spare capacity (>= aux+1 after the
+    # reserve), or is limited by exactly the reserved count
+    chain = pe.prov.op_src(fe[0].args[0])
+    calls = {x.a for x in chain if x.kind == "call"}
+    limited = [x for x in chain if x.kind == "call" and x.a.rsplit("::", 1)[-1] in ("take", "skip", "step_by", "filter", "take_while", "skip_while",
+                                                                                       "rev", "chain", "zip", "map_while", "nth", "split_at_mut")]
+    okc = "std::vec::Vec::spare_capacity_mut" in calls
+    for x in limited:
+        lc = pe.call_at(x.b)
+        if lc.callee.endswith("::take") and len(lc.args) == 2:
+            lim = pe.prov.op_src(lc.args[1])
+            same = {y.label() for y in lim if y.kind in ("param", "const", "binop")} == {y.label() for y in r if y.kind in ("param", "const", "binop")}
+            okc = okc and same
+        else:
+            okc = False
+    ctx.check(okc, "R06.5", ["par_extend", "prefill-covers-all-exposed-slots"],
+              "the None pre-fill does not cover all aux_threads + 1 slots exposed by set_len (iterator chain: %s): the entry of a panicking "
+              "call could be uninitialised or stale instead of empty" % sorted(calls), fe[0].line())
     # pre-fill closure writes None
     cls = [x for x in prog.children(pe) if x.kind == "Closure"]
     fill = [x for x in cls if any(c.callee == "std::mem::MaybeUninit::write" for c in x.live_calls())]
